@@ -658,7 +658,7 @@ func goType(code int) string {
 	case 0:
 		return "Default"
 	}
-	return fmt.Sprint(code)
+	return "Status" + fmt.Sprint(code) // codes without a registered status text
 }
 
 func opGo(id string) string { return strings.ToUpper(id[:1]) + id[1:] }
@@ -706,6 +706,11 @@ func main() {
 		specIn := map[string]interface{}{"spec": json.RawMessage(specJSON), "custom_principal": customPrincipal}
 		sargs := []string{"generate", "server", "-q", "-A", "verifapi", "-f", spath, "-t", dir}
 		cargs := []string{"generate", "client", "-q", "-A", "verifapi", "-f", spath, "-t", dir}
+		sargs = append(sargs, sp.GenFlags...)
+		cargs = append(cargs, sp.GenFlags...)
+		for _, f := range sp.GenFlags {
+			cov["option:"+f]++
+		}
 		if customPrincipal {
 			sargs = append(sargs, "-P", "models.Principal")
 			cargs = append(cargs, "-P", "models.Principal")
@@ -1181,6 +1186,11 @@ func main() {
 					addV("C04", "c04/response-classification", fmt.Sprintf("the client returned %s (code %d), expected %s (code %d)", res.ClientType, res.ClientCode, e.clientType, e.clientCode), in,
 						map[string]interface{}{"client_error": res.ClientErr})
 				} else {
+					// a declared 2xx code is the typed result of the call, every other declared code (and default) its typed error
+					if declared2xx := e.clientCode/100 == 2 && e.clientType != "APIError" && !strings.HasSuffix(e.clientType, "Default"); declared2xx != (res.ClientErr == "") {
+						addV("C04", "c04/result-vs-error", fmt.Sprintf("the client returned %s (code %d) as %s", res.ClientType, res.ClientCode, map[bool]string{true: "an error although the code is a declared 2xx code", false: "a result although the code is not a declared 2xx code"}[declared2xx]), in,
+							map[string]interface{}{"client_error": res.ClientErr})
+					}
 					if e.payload != nil {
 						var got interface{}
 						_ = json.Unmarshal(res.ClientPayload, &got)
